@@ -21,7 +21,7 @@ T = {
  "C08-1": ("each transmission consumes the stored nonce: a recoverable error without Replay-Nonce is no longer retried", "a recoverable error answer without a Replay-Nonce header", None, "C08: for 1..3 nonce-less recoverable answers the request must be sent again and the attempt must succeed (it used to check the upper bound only)"),
  "C08-2": ("error bodies are cut at 4096 octets: a long recoverable problem document no longer parses and is not retried", "a recoverable problem document longer than 4 KiB", None, "mock CA action AcmeHugeDetail (6 kB detail, subproblems) with recoverable types at every POST"),
  "C09-1": ("re-registration on a clone of the endpoint that is written back afterwards (limiter log lost both ways)", "accountDoesNotExist at newOrder under a binding limit, another certificate queued", None, ""),
- "C09-2": ("the request log keeps at most 128 entries", "a limit whose number exceeds 128", None, "C09 pr: one case in eight uses a limit with n in 100..400 and a burst of n+5..n+40 calls"),
+ "C09-2": ("the request log keeps at most 128 entries", "a limit whose number exceeds 128", None, "C09 pr: one case in eight uses a limit with n in 110..180 per 22..30 s and a burst of n+3..n+8 calls (the limiter admits about ten calls a second at most, so larger numbers only bind over long periods)"),
  "C10-1": ("templates without {{ are returned unrendered", "a hook argument, stdin or file template made of {% %} statements or {# #} comments only", None, "C10 recorder arguments stmt / cmt / plain (statement-only, comment-only and plain-text templates)"),
  "C10-2": ("post hooks chosen from a second existence test after the pre hooks (same as campaign 1 C10-1)", "a pre hook that creates or moves the file", None, ""),
  "C11-1": ("the account file is no longer saved right after a key roll-over but after the contacts step", "key and contacts edited together, roll-over accepted, contact update refused, restart before the retry", None, "C11 step FaultRestart: the daemon is stopped right after the attempt that met the fault; the renewal happens in a new life, judged on its outcome"),
